@@ -73,8 +73,16 @@ def norm(ans):
 
 def shrink(logic, K, tree, entry, differs):
     """greedy structural shrinking of (K, tree) keeping `differs(K, tree)` true"""
+    budget = [80]           # at most this many re-evaluations; large structures are not shrunk edge by edge
+
+    def differs_b(K2, t2, _d=differs):
+        if budget[0] <= 0:
+            return False
+        budget[0] -= 1
+        return _d(K2, t2)
+    differs = differs_b
     changed = True
-    while changed:
+    while changed and budget[0] > 0:
         changed = False
         # formula: replace by a child / a constant
         def subs(t):
@@ -95,7 +103,7 @@ def shrink(logic, K, tree, entry, differs):
         if changed:
             continue
         # structure: drop an edge / a label
-        for s in range(K.n):
+        for s in (range(K.n) if K.n <= 12 else []):
             for d in list(K.succ[s]):
                 if len(K.succ[s]) > 1:
                     K2 = KS([[x for x in ss if not (i == s and x == d)] for i, ss in enumerate(K.succ)], K.labs)
